@@ -855,10 +855,40 @@ def _parse_header(h):
     return parts[0], parts[1:], opts
 
 
+def _check_assumed_derives(template_text, repo_root):
+    """`//@assume-derive <file> :: <Name> :: Trait ...` - the unit's specifications treat these traits of the type as the DERIVED ones (structural
+    equality, field-wise clone ...); derives leave no source text to extract, so the assumption is checked mechanically instead: the type's
+    declaration in the repository must still carry `#[derive(.. Trait ..)]`.  If it does not (a hand-written impl took its place) the unit is
+    undecided: GenError, exit 2."""
+    out = []
+    for line in template_text.split("\n"):
+        m = re.match(r"\s*//@assume-derive\s+(\S+)\s*::\s*(\w+)\s*::\s*(.+)$", line)
+        if not m:
+            out.append(line)
+            continue
+        rel, name, traits = m.group(1), m.group(2), m.group(3).split()
+        try:
+            src = open(os.path.join(repo_root, rel)).read()
+        except OSError:
+            raise GenError("assume-derive: cannot read %s" % rel)
+        dm = re.search(r"((?:[ \t]*(?:#\[[^\n]*\]|///[^\n]*|//[^\n]*)[ \t]*\n)*)[ \t]*(?:pub(?:\([^)]*\))?\s+)?(?:struct|enum)\s+%s\b" % re.escape(name), src)
+        if not dm:
+            raise GenError("assume-derive: type %s not found in %s" % (name, rel))
+        derived = set()
+        for d in re.findall(r"#\[derive\(([^)]*)\)\]", dm.group(1)):
+            derived.update(x.strip().split("::")[-1] for x in d.split(","))
+        for t in traits:
+            if t not in derived:
+                raise GenError("assumption lost: %s :: %s no longer derives %s (the unit's specifications assume the derived implementation)" % (rel, name, t))
+        out.append("// assumed derived (checked against the repository's declaration): %s :: %s :: %s" % (rel, name, " ".join(traits)))
+    return "\n".join(out)
+
+
 def generate(unit, template_text, repo_root, units_dir=None):
     if units_dir:
         template_text = expand_includes(template_text, units_dir)
     template_text = expand_bytes_macro(template_text)
+    template_text = _check_assumed_derives(template_text, repo_root)
     parsed, gsubs = parse_template(template_text)
     g = Generated()
     _REPO_ROOT[0] = repo_root
